@@ -289,6 +289,11 @@ def statement(draw, depth=2, in_loop=False, allow_input=True):
             'if t0 and isinstance(t0[0], int):\n    i2 = t0[0] + 1',
             'l1 = list(t0)[:10]',
             'print(t0 == tuple(l0), (1, 2) < (1, 3), t0.count(1) if t0 else -1)',
+            'for pr2 in zip(l0[:4], ls0):\n    print(pr2[0], pr2[1])',
+            'for n2, w2 in zip(l0[:3], (s0 + "ab")[:3]):\n    print(n2, w2)',
+            "dm = {'a': i0, 'b': s0, 'c': [i1]}\nfor k2, v2 in dm.items():\n    print(k2, str(v2))\nfor v3 in dm.values():\n    print(str(v3)[:5])",
+            "dm = {'n': 1, 'w': 'two'}\nfor k2 in dm.keys():\n    print(k2, dm[k2])",
+            "dm = {'n': [i0, 2], 'w': s0}\nfor k2, v2 in dm.items():\n    for part in v2:\n        print(k2, part)\nfor v3 in dm.values():\n    for part in v3:\n        print(part)",
         ]))
     if k <= 1:
         return '%s = %s' % (draw(st.sampled_from(INTS)), draw(int_expr()))
